@@ -29,6 +29,12 @@ TEXT = {
         "level_text": "Sequential: every alloc/lookup/release sequence is compared step by step with a set model (in range, not network/broadcast, exclusive, sticky, refusal only when full) and closed by a fill-until-refusal conservation check; all sequences of 8 operations up to length 6 (/30) and 5 (/29) are enumerated. Concurrent: 2-8 goroutines run generated programs under -race and the call/return history must be linearizable w.r.t. the pool specification.",
         "level_note": "Trusts porcupine's checker and the Go race detector; concurrent schedules are sampled by the Go scheduler, not enumerated.",
     },
+    "C08": {
+        "engine": "rapid-wire",
+        "technique": "grammar-based generation (rapid) with an independent parser/denotation as oracle: parser round trip through a hook, differential comparison of the PDR entries observed at the harness BESS server, and model-based PFD provisioning histories",
+        "level_text": "Three units. Parser: IPFilterRule texts from the grammar round-trip (action, direction, protocol, both prefixes, both port ranges) against an independent parser; corruptions of the classes the statement names must be refused. PDR: one PDR per case with a generated description is established over PFCP; inside the envelope the installed entries must denote exactly the oriented filter (structure + boundary packets); malformed text => refused or UE-address-only, never a third filter. PFD: histories of accepted/rejected PFD Management Requests interleaved with PDRs naming application IDs; the observed filter must be a provisioned description of that application taken verbatim with one consistent keyword/direction association, unknown applications refused, rejected requests leave the table intact.",
+        "level_note": WIRE_NOTE + " Port ranges wider than 100 and two true ranges are outside the PDR-level envelope (not installed by the plug-in); C17 covers their refusal.",
+    },
     "C09": {
         "engine": "rapid-wire",
         "technique": "model-based property testing (rapid) with an exact rate/gate oracle, lower-bound burst oracle and an admissible-set oracle for the agent's choice of session QER derived from the observed tables",
